@@ -9,7 +9,7 @@ import vlib
 
 LETTERS = "ABCDEFGH"
 BUILDABLE = "BCFH"          # types the harness's builder op supports
-SHARED = "ST"
+SHARED = "STU"
 
 HARNESSES = [("world_driver", "asan")]
 
@@ -181,7 +181,7 @@ class Gen:
             comps = set(r.sample(self.letters, r.randint(0, min(3, len(self.letters)))))
             sh = []
             if self.shared and not locked and r.random() < 0.25:
-                sh = sorted(r.sample(SHARED, r.randint(1, 2)))
+                sh = sorted(r.sample(SHARED, r.randint(1, 3)))
             o = ref.n
             ref.n += 1
             self.emit("%screate %s%s" % (p, ",".join(sorted(comps)) or "-", "".join(" " + s for s in sh)))
@@ -555,7 +555,7 @@ def project(lines):
     """implementation observation lines -> the property-level projection the spec stream prints"""
     out = []
     for l in lines:
-        if l.startswith(("A ", "T ", "L ")):
+        if l.startswith(("A ", "T ", "L ", "EV ")):      # `EV`: per-op lifecycle counts (C03, op line `events on`)
             continue
         cbs = sorted(_CB.findall(l))
         base = _CB.sub("", l)
@@ -641,6 +641,19 @@ def expand_parjobs(ops, impl):
     return "\n".join(new_ops) + "\n", new_impl
 
 
+def handles_distinct(lines):
+    """C01 on the implementation's own output: creation calls never return one (id, version, world) triple twice"""
+    seen = {}
+    for l in lines:
+        if l.startswith("h ") and " id=" in l:
+            w = l.split()
+            key = tuple(w[2:5])
+            if key in seen:
+                return "creation calls %s and %s returned the same handle %s" % (seen[key], w[1], " ".join(key))
+            seen[key] = w[1]
+    return None
+
+
 def op_lines(ops):
     return [l for l in ops.splitlines() if l.strip() and not l.startswith("#")]
 
@@ -722,7 +735,7 @@ class Session:
         d = first_diff(project(impl), spec, spec_line_eq)
         if d:
             return ("oracle", "observation %d: implementation `%s` but the specification says `%s`" % (d[0], d[1][:300], d[2][:300]))
-        msg = shared_instances_ok(impl)
+        msg = shared_instances_ok(impl) or handles_distinct(impl)
         if msg:
             return ("oracle", msg)
         if self.prop_oracle:
@@ -759,26 +772,51 @@ def corpus_files(props):
     return out
 
 
+def stress_parallel_creates(ctx):
+    """free-running parallel jobs whose tasks create / destroy / assign concurrently from every dispatcher thread:
+    thousands of deferred creations reserve ids at the same time (C01, C05, C06)"""
+    out = []
+    for k in range(4 if ctx.thorough else 1):
+        n = (6000 if ctx.thorough else 2400) + 4 * k
+        lines = ["threads %d" % (8 if k % 2 == 0 else 3)]
+        lines += ["create A"] * n
+        tok = 100000
+        for j in range(3):
+            lines.append("parjob tasks=%d tok=%d" % ((9 if k % 2 == 0 else 4), tok))
+            tok += 100000
+            lines += ["valid %d" % ctx.rng.randrange(n) for _ in range(20)]
+        lines += ["valid %d" % (n + i) for i in range(0, 40, 3)]
+        lines.append("teardown")
+        out.append(("stress:parallel-creates-%d" % k, "\n".join(lines) + "\n"))
+    return out
+
+
 def run_world_check(ctx, cfg):
     """cfg: dict(mix, corpus=[prop ids], n_quick, n_thorough, len=(lo,hi), gen=dict(kwargs for Gen), what=str,
-                 extra_oracle=callable|None, exhaustive=callable|None)"""
+                 extra_oracle=callable|None, exhaustive=callable|None,
+                 prelude=str|None: op lines put in front of every corpus / generated file (not of a replay file, which
+                 is run as recorded), e.g. "events on\\n"; files with a `parjob` op are left alone)"""
     sess = Session(ctx, cfg.get("extra_oracle"))
     rng = ctx.rng
     files = []
+    prelude = cfg.get("prelude") or ""
+
+    def with_prelude(text):
+        return text if (not prelude or "parjob" in text) else prelude + text
     if getattr(ctx, "replay", None):
         files.append(("replay:" + ctx.replay, open(ctx.replay).read()))
     else:
         for f in corpus_files(cfg.get("corpus", [])):
-            files.append(("corpus:" + os.path.relpath(f, vlib.VERIF), open(f).read()))
+            files.append(("corpus:" + os.path.relpath(f, vlib.VERIF), with_prelude(open(f).read())))
         for name, text in (cfg["exhaustive"](ctx) if cfg.get("exhaustive") else []):
-            files.append((name, text))
+            files.append((name, with_prelude(text)))
         n = cfg["n_thorough"] if ctx.thorough else cfg["n_quick"]
         for i in range(n):
             g = Gen(rng, cfg["mix"], **cfg.get("gen", {}))
             lo, hi = cfg.get("len", (8, 45))
             if ctx.thorough:
                 hi = hi * 3
-            files.append(("random:%d" % i, g.run(rng.randint(lo, hi))))
+            files.append(("random:%d" % i, with_prelude(g.run(rng.randint(lo, hi)))))
     failures = {"oracle": [], "abort": [], "tie": []}
     import concurrent.futures as cf
     with cf.ThreadPoolExecutor(max(2, vlib.NPROC - 2)) as ex:
